@@ -19,6 +19,9 @@ CAPIDX = ["stub: LogWriter::insert_index -> capture (table, page index, slot, pa
 
 
 def harness_file(name):
+    if "::verif_kani_ms::" in name:
+        mod = name.rsplit("::verif_kani_ms::", 1)[0]
+        return {"db": "db_ms.rs", "log": "log_ms.rs", "column": "column_ms.rs"}[mod]
     mod = name.rsplit("::verif_kani::", 1)[0]
     return MODFILE[mod]
 
@@ -226,3 +229,88 @@ prop("C10",
      assumptions=[])
 add("C10", H("column", "c10_n1_unpack_a", "quick", ["C10.N1"], "node bytes [u8;40]; (length, count) in 10 pairs", "unwind 42", 900, 6, unwind=42, stubs=FMT_STUB))
 add("C10", H("column", "c10_n1_unpack_b", "quick", ["C10.N1"], "node bytes; 10 more pairs incl. count 255/128", "unwind 42", 900, 6, unwind=42, stubs=FMT_STUB))
+
+# ======================================================================================== C08 (mapsub build)
+MAPSUB = ["model: std HashMap/HashSet in db.rs, log.rs, column.rs, options.rs replaced by a fixed-capacity association array (crate::verif_map, capacity 4; last write wins, "
+          "entry() sees what get() sees, iteration visits each live pair once in slot order) — validated natively against std::HashMap at setup"]
+prop("C08",
+     functions=["IndexedChangeSet::{check_operations, copy_to_overlay}", "BTreeChangeSet::{check_operations, copy_to_overlay}", "DbInner::commit_raw"],
+     bounds="change sets of 2-3 operations over 2 keys, all six operation kinds, ref_counted flags symbolic; commit_raw over 2 columns (hash+hash, hash+btree), "
+            "background error present or not; struct-literal DbInner (no columns, no files)",
+     outside="side effects taken before commit_raw is reached by commit_changes on multitree columns (claimed node slots, queued-dereference counters); persistence 'at that time or later'; "
+             "iteration order of the real HashMap (one order checked; asserted post-conditions are order-insensitive)",
+     assumptions=["commit queue below its byte limit (no waiting)"])
+add("C08", H("db", "c08_a1_checked_changeset_copies_without_error", "quick", ["C08.A1"], "3 operations over 2 keys, kinds from all six, ref_counted", "unwind 34", 900, 6, variant="mapsub",
+             unwind=34, stubs=FMT_STUB + MAPSUB, replay="solver-trace-only"))
+add("C08", H("db", "c08_a1_checked_btree_changeset_copies_without_error", "quick", ["C08.A1"], "2 operations over 2 keys, 5 kinds, ref_counted", "unwind 34", 900, 6, variant="mapsub",
+             unwind=34, stubs=FMT_STUB + MAPSUB, replay="solver-trace-only"))
+for fn, tier in (("c08_a2_commit_raw_hash_hash_first_set", "quick"), ("c08_a2_commit_raw_hash_hash_first_reference", "thorough"),
+                 ("c08_a2_commit_raw_hash_btree_first_set", "quick"), ("c08_a2_commit_raw_hash_btree_first_deref", "thorough")):
+    add("C08", H("db", fn, tier, ["C08.A2"], "3 operations in 2 columns: kinds enumerated (16 combinations per harness), values, ref_counted flags, background error, old overlay value symbolic",
+                 "unwind 34", 2400, 12, variant="mapsub", unwind=34, stubs=ENV + MAPSUB, replay="solver-trace-only"))
+add("C08", H("db", "c08_twin_must_fail", "quick", [], "one operation", "must-fail twin", 600, 4, variant="mapsub", twin=True, unwind=34, stubs=FMT_STUB + MAPSUB))
+for h in _H["C08"]:
+    h["name"] = h["name"].replace("::verif_kani::", "::verif_kani_ms::")
+
+# ---- C01.K2 (mapsub)
+add("C01", H("db", "c01_k2_commit_overlay_last_write_wins", "quick", ["C01.K2"], "3 commits x <=2 operations (key, Set/Dereference, value symbolic), retired commit id", "2 keys; unwind 34", 1500, 10,
+             variant="mapsub", unwind=34, stubs=FMT_STUB + MAPSUB, replay="solver-trace-only"))
+_H["C01"][-1]["name"] = _H["C01"][-1]["name"].replace("::verif_kani::", "::verif_kani_ms::")
+PROPS["C01"]["functions"] += ["IndexedChangeSet::{copy_to_overlay, clean_overlay}", "CommitOverlay::{get, get_size}"]
+
+def _ms(pid):
+    _H[pid][-1]["name"] = _H[pid][-1]["name"].replace("::verif_kani::", "::verif_kani_ms::")
+
+add("C01", H("log", "c01_k3_end_read_retires_only_own_entries", "quick", ["C01.K3"], "record ids of 4 overlay entries, finishing record id, next_record_id, values", "one call; 17 index / 4 value / 17 ref-count overlays; unwind 40", 1800, 12,
+             variant="mapsub", unwind=40, stubs=ENV + MAPSUB, replay="solver-trace-only"))
+_ms("C01")
+PROPS["C01"]["functions"] += ["Log::end_read"]
+add("C10", H("log", "c10_m1_modified_masks_accumulate", "quick", ["C10.M1", "C09.M1"], "two (page, entry) modifications of ref-count and index pages, symbolic page numbers / entry numbers / content byte", "one record; unwind 66", 1800, 12,
+             variant="mapsub", unwind=66, stubs=ENV + MAPSUB, replay="solver-trace-only"))
+_ms("C10")
+PROPS["C10"]["functions"] += ["LogWriter::{insert_ref_count, insert_index}", "<LogWriter as LogQuery>::ref_count"]
+
+# ======================================================================================== C04
+prop("C04",
+     functions=["btree::node::Node::{position, number_separator, shift_from, remove_from, split, remove_separator, remove_child, from_encoded}",
+                "btree::Entry::{write_separator, read_separator, write_child_index, read_child_index}", "CommitOverlay::{btree_next, btree_prev}"],
+     bounds="nodes of up to 8 separators with symbolic 1-2 byte keys (strictly increasing), symbolic operation position; separator codec at key lengths {0,1,254,255,256}; "
+            "decoding of arbitrary entries up to 24 bytes; overlay cursor over <= 3 one-byte keys",
+     outside="iter_inner's merge of overlay and tree cursors, re-seek on record change, multi-level change/rebalance/remove_last, depth uniformity of a whole tree, iteration under concurrent commits",
+     assumptions=["node pre-states are sorted and packed (a prefix of Some separators)"])
+add("C04", H("btree::node", "c04_b1_position", "quick", ["C04.B1"], "n in 0..=8, keys, probe key (1-2 bytes)", "unwind 12", 1500, 8, unwind=12))
+for fn, tier in (("c04_b2_shift_from_leaf_n7", "quick"), ("c04_b2_shift_from_inner_n7_right", "quick"), ("c04_b2_shift_from_inner_n7_left", "thorough"), ("c04_b2_shift_from_inner_n4_left", "thorough"),
+                 ("c04_b2_remove_from_leaf_n8", "quick"), ("c04_b2_remove_from_inner_n8_right", "thorough"), ("c04_b2_remove_from_inner_n8_left", "quick"), ("c04_b2_remove_from_inner_n5_left", "thorough"),
+                 ("c04_b2_split_leaf", "quick"), ("c04_b2_split_inner", "thorough")):
+    add("C04", H("btree::node", fn, tier, ["C04.B2"], "keys, position", "unwind 12", 1500, 8, unwind=12))
+add("C04", H("btree::node", "c04_twin_must_fail", "quick", [], "keys", "must-fail twin", 600, 4, twin=True, unwind=12))
+for l, tier in ((0, "thorough"), (1, "quick"), (254, "quick"), (255, "quick"), (256, "thorough")):
+    add("C04", H("btree", "c04_b3_separator_codec_%d" % l, tier, ["C04.B3"], "key bytes, value address, child address", "key length %d; unwind 280" % l, 1500, 8, unwind=280, stubs=FMT_STUB))
+add("C04", H("btree", "c04_b3_decode_arbitrary_bytes", "quick", ["C04.B3"], "entry bytes [u8;24], length 0..=24", "unwind 26", 1500, 8, unwind=26, stubs=FMT_STUB))
+add("C04", H("btree", "c04_b3_node_from_encoded", "quick", ["C04.B3"], "n in 0..=8 one-byte keys, addresses, children", "unwind 12", 1500, 8, unwind=12, stubs=FMT_STUB))
+add("C04", H("db", "c04_b4_overlay_cursor", "quick", ["C04.B4"], "<=3 distinct one-byte keys, probe key, LastKey variant", "std BTreeMap; unwind 8", 1800, 10, unwind=8, stubs=ENV))
+
+# ---- C10 (mapsub): tree packing and ref-count steps
+PROPS["C10"]["functions"] += ["HashColumn::{claim_tree_values, prepare_children, prepare_node, claim_children_to_data, claim_node}", "ValueTable::claim_entries",
+                              "HashColumn::{write_address_inc_ref_plan, write_address_dec_ref_plan, write_ref_count_plan_new, write_ref_count_plan_existing, search_all_ref_count}",
+                              "RefCountTable::{get, write_insert_plan, write_remove_plan, plan_insert_chunk, plan_remove_chunk, chunk_index}"]
+PROPS["C10"]["bounds"] += "; trees: root with 0..=3 children (New leaf / Existing, mix symbolic) and 0..=4 data bytes, the 255/256 children boundary (root and nested), miniature multitree column {32, 64, multipart}; ref-count steps on one node address (3 slots symbolic)"
+for fn, tier in (("c10_n2_claim_tree_c3_d4", "quick"), ("c10_n2_claim_tree_c2_d0", "thorough"), ("c10_n2_claim_tree_c0_d3", "thorough"), ("c10_n2_claim_tree_c1_d1", "quick")):
+    add("C10", H("column", fn, tier, ["C10.N2"], "root data bytes, per child New/Existing, leaf data byte, existing addresses, append_only", "miniature multitree column; unwind 40", 1800, 10,
+                 variant="mapsub", unwind=40, stubs=ENV + MAPSUB, replay="solver-trace-only"))
+    _ms("C10")
+for fn in ("c10_n2_claim_tree_255_children", "c10_n2_claim_tree_256_children_rejected", "c10_n2_claim_tree_nested_256_rejected"):
+    add("C10", H("column", fn, "quick", ["C10.N2", "C08.A3"], "concrete wide node (255 / 256 children, one New child)", "unwind 260", 1800, 10,
+                 variant="mapsub", unwind=260, stubs=ENV + MAPSUB, replay="solver-trace-only"))
+    _ms("C10")
+add("C10", H("column", "c10_n3_ref_count_steps", "quick", ["C10.N3"], "node slot 1..=3", "inc, inc, dec, dec, dec on one node; unwind 66", 2400, 12,
+             variant="mapsub", unwind=66, stubs=ENV + MAPSUB + OVERLAY + TFILE, replay="solver-trace-only"))
+_ms("C10")
+add("C10", H("ref_count", "c10_g3_ref_count_log_index_roundtrip", "quick", ["C10.G3"], "two (col, bits) pairs", "loop-free", 300, 2))
+add("C10", H("ref_count", "c10_e1_entry_roundtrip", "quick", ["C10.E1"], "address, count, entry position", "loop-free", 300, 2))
+# the rejected-tree storage obligation also serves C08
+for fn in ("c10_n2_claim_tree_256_children_rejected", "c10_n2_claim_tree_nested_256_rejected"):
+    add("C08", H("column", fn, "quick", ["C08.A3"], "concrete wide node (256 children, one New child)", "unwind 260", 1800, 10,
+                 variant="mapsub", unwind=260, stubs=ENV + MAPSUB, replay="solver-trace-only"))
+    _ms("C08")
+PROPS["C08"]["functions"] += ["HashColumn::claim_tree_values (rejected node claims no storage)"]
